@@ -102,17 +102,27 @@ func (*orderedSet).add
   ensures appended: !old(haskey(os.set.m, key)) ==> len(os.vals) == old(len(os.vals)) + 1 && os.vals[len(os.vals) - 1] == val &&
     (forall i in 0..old(len(os.vals)): os.vals[i] == old(os.vals[i]))
   ensures marks_key: forall x: haskey(os.set.m, x) <==> (old(haskey(os.set.m, x)) || x == keyid(key))
+  ensures storage_kept_or_fresh: ref(os.vals) == old(ref(os.vals)) || fresh(os.vals)
 
 func (*DefaultStorage).Add
   requires storageOK(s) && rec != nil
+  // the record's name slice is the caller's: it shares no memory with the
+  // storage's own name lists
+  requires names_not_aliased: forall a: haskey(s.names, a) ==> ref(mapget(s.names, a).vals) != ref(rec.Names)
   modifies mapof(s.names), mapof(s.addrs), allof("namesSet"), allof("addrsSet"), allof("map[string]container.unit"), allof("map[netip.Addr]container.unit"), allof("[]string"), allof("[]netip.Addr")
   ensures inv: storageOK(s)
   ensures no_names_no_change: len(rec.Names) == 0 ==>
     (forall a: haskey(s.names, a) <==> old(haskey(s.names, a))) && (forall h: haskey(s.addrs, h) <==> old(haskey(s.addrs, h)))
   ensures indexes_only_grow: (forall a: old(haskey(s.names, a)) ==> haskey(s.names, a) && mapget(s.names, a) == old(mapget(s.names, a))) &&
     (forall h: old(haskey(s.addrs, h)) ==> haskey(s.addrs, h) && mapget(s.addrs, h) == old(mapget(s.addrs, h)))
+  ensures addr_indexed: len(rec.Names) > 0 ==> haskey(s.names, rec.Addr)
   loop 0
     invariant storageOK(s) && osOKs(names)
+    invariant last_name_indexed: rangeindex >= 0 ==>
+      (let k = strid(toLower(rec.Names[rangeindex])) in
+       haskey(s.addrs, k) && mapget(s.addrs, k) != nil && haskey(mapget(s.addrs, k).set.m, rec.Addr))
+    invariant names_own_memory: isnil(names.vals) || ref(names.vals) != ref(rec.Names)
+    invariant last_name_listed: rangeindex >= 0 ==> haskey(names.set.m, strid(toLower(rec.Names[rangeindex])))
     invariant len(rec.Names) > 0 ==> haskey(s.names, rec.Addr) && mapget(s.names, rec.Addr) == names
     invariant forall a: old(haskey(s.names, a)) ==> haskey(s.names, a) && mapget(s.names, a) == old(mapget(s.names, a))
     invariant forall h: old(haskey(s.addrs, h)) ==> haskey(s.addrs, h) && mapget(s.addrs, h) == old(mapget(s.addrs, h))
@@ -122,7 +132,10 @@ func (*DefaultStorage).ByAddr
   ensures found: haskey(s.names, addr) && mapget(s.names, addr) != nil ==> hosts == mapget(s.names, addr).vals
   ensures missing: !haskey(s.names, addr) ==> isnil(hosts)
 
+// ByName looks the host up under its lower-cased form, the form Add stores.
 func (*DefaultStorage).ByName
   requires storageOK(s)
+  ensures found: haskey(s.addrs, strid(toLower(host))) ==> addrs == mapget(s.addrs, strid(toLower(host))).vals
+  ensures missing: !haskey(s.addrs, strid(toLower(host))) ==> isnil(addrs)
   ensures missing_is_nil: (forall h: !haskey(s.addrs, h)) ==> isnil(addrs)
 @*/
